@@ -250,6 +250,9 @@ def build_harness():
         write_if_changed(os.path.join(BUILD, "alt.go.sum"), open(os.path.join(hdir, "go.sum")).read())
         cmd += ["-modfile", alt]
     rc, out, dt = sh(cmd + ["."], cwd=hdir, env=GOENV, timeout=1200)
+    if rc != 0 and ("no such file or directory" in out or "cache" in out):
+        # the Go build cache was trimmed under a running build (shared machine): not a verdict, build again
+        rc, out, dt = sh(cmd + ["."], cwd=hdir, env=GOENV, timeout=1200)
     return rc == 0, out
 
 def run_harness(prop, tier, seed, outdir, timeout):
